@@ -208,19 +208,19 @@ def run(tier):
             "x0000000000000001", "x7ff0000000000000", "xfff0000000000000", "x7ff8000000000000", "x7e37e43c8800759c",
             "x3fb999999999999a", "x4059000000000000", "x41dfffffffc00000", "xc1e0000000000000", "x3cb0000000000000"]
     unary = ["round", "floor", "ceil", "abs", "sqrt", "sin", "cos", "tan", "sinh", "cosh", "tanh", "asin", "acos", "atan",
-             "log", "-", "!"]
+             "log", "-", "not"]
     binary = ["+", "-", "*", "/", "%", "^", "<", "<=", ">", ">=", "==", "!=", "&&", "||", "min", "max", "atan2", "pow"]
     breqs = []
     for f in unary:
-        e = f"({f}x)" if f in ("-", "!") else f"{f}(x)"
+        e = f"({f}x)" if f == "-" else f"{f}(x)"
         breqs.append({"id": f"un:{f}", "src": f"fn dsp(x){{ ({e}, {e} * 0.5 + 1, if ({e}) {{ 1 }} else {{ 2 }}) }}\n", "n": len(grid),
                       "backends": ["vm", "wasm"], "sched": True, "inputs": [[g] for g in grid]})
     breqs.append({"id": "index", "src": "fn dsp(x){\n  let a = [10, 20, 30]\n  let b = [(1, 2), (3, 4)]\n  (a[x], b[x].1)\n}\n", "n": len(grid),
                   "backends": ["vm", "wasm"], "sched": True, "inputs": [[g] for g in grid]})
     pairs = [(a, b) for i, a in enumerate(grid) for j, b in enumerate(grid) if (i * 7 + j * 3) % 5 == 0]
     for f in binary:
-        e = f"(x {f} y)" if not f.isalpha() else f"{f}(x, y)"
-        breqs.append({"id": f"bin:{f}", "src": f"fn dsp(x, y){{ ({e}, {e} + 0) }}\n", "n": len(pairs),
+        e = f"{f}(x, y)" if f[0].isalpha() else f"(x {f} y)"
+        breqs.append({"id": f"bin:{f}", "src": f"fn dsp(p:(float,float)){{\n  let (x, y) = p\n  ({e}, {e} + 0)\n}}\n", "n": len(pairs),
                       "backends": ["vm", "wasm"], "sched": True, "inputs": [[a, b] for a, b in pairs]})
     for req, out, crash in vlib.run_harness("run", breqs, timeout_per_req=30):
         nprog += 1
@@ -228,6 +228,8 @@ def run(tier):
         if crash or out is None:
             chk.violation(f"runtime process died on {req['src']}: {crash}", {"src": req["src"]}, key=key)
             continue
+        if out["vm"].get("status") != "ok":
+            raise vlib.ToolError(f"builtin table entry {req['id']} does not run on the VM: {out['vm'].get('status')} {out['vm'].get('msg', '')}")
         rid = f"builtin:{req['id']}"
         records.append({"id": rid, "a": langpipe.side(out["vm"]), "b": langpipe.side(out["wasm"]), "cmpwords": False})
         meta[rid] = (req["src"], {"src": req["src"], "inputs": req["inputs"]}, key)
